@@ -86,6 +86,7 @@ def srvOf (exts : List (List String)) (tok : String) : Option Srv :=
   | ["hg"] => some fun _ => .timeout
   | ["er"] => some fun _ => .netErr
   | ["cl"] => some fun _ => .netErr
+  | ["cx"] => some fun _ => .netErr
   | _ => none
 
 def insInt (x : Int) : List Int → List Int
@@ -220,14 +221,17 @@ structure MSt where
   now : Nat := 0
   evs : List MEv := []
   nops : Nat := 0
+  dests : List Dest := []
   hangSeen : Bool := false
+  terr : Bool := false          -- some request failed in the transport (dropped, refused, timed out)
   during : Bool := false        -- some events were enqueued while a send was in flight (`advh`)
   stopped : Bool := false
 
 def mInit (args : List String) : MSt :=
   let nat (k : String) := ((kv args k).getD "0").toNat?.getD 0
   let bad := (List.range (nat "nd")).filter fun i => (parseDest ((kv args s!"d{i}").getD "?")).2 != "ok"
-  { mb := nat "mb", bt := nat "bt" * 1000000, bad := bad }
+  let ds := (List.range (nat "nd")).map fun i => (parseDest ((kv args s!"d{i}").getD "?")).1
+  { mb := nat "mb", bt := nat "bt" * 1000000, bad := bad, dests := ds }
 
 /-- exactly-once failures in a case where events were enqueued during an in-flight send -/
 def duringSfx (m : MSt) : String := if m.during then ":enqueue-during-send" else ""
@@ -280,10 +284,18 @@ def monGroup (m : MSt) (grp : String) : MSt × List Fail :=
             match m.evs.find? (·.id == id) with
             | none => [fail "C26:unknown-event-sent" s!"event {id} in a request was never enqueued"]
             | some e =>
-              (if e.dest != di then [fail "C26:event-sent-to-other-destination" s!"event {id} of d{e.dest} was sent to d{di}"] else []) ++
+              (if e.dest != di then
+                let sameButKey := match m.dests[e.dest]?, m.dests[di]? with
+                  | some a, some b => a.host == b.host && a.dataset == b.dataset
+                  | _, _ => false
+                if sameButKey then [fail "C26:event-sent-with-other-api-key" s!"event {id} of d{e.dest} was sent under the API key of d{di}"]
+                else [fail "C26:event-sent-to-other-destination" s!"event {id} of d{e.dest} was sent to d{di}"] else []) ++
               (if !e.fit then [fail "C26:oversize-event-sent" s!"event {id} (over 1 MB or unmarshalable) was sent"] else []) ++
               (if t * 4 ≥ e.t0 * 4 + 5 * m.bt then [fail "C26:dispatched-later-than-1.25-BatchTimeout" s!"event {id} enqueued at {e.t0} sent at {t}, BatchTimeout {m.bt}"] else [])
         | _ => [fail "C26:unreadable-observation" "attempt record"]
+      let m := if recs.any (fun r => match r with
+          | [_, _, _, b] => ["cl", "cx", "er", "to", "hg"].contains b
+          | _ => false) then { m with terr := true } else m
       let idLists := recs.filterMap fun r => match r with
         | [_, idsS, _, _] => some ((idsS.splitOn ".").filterMap String.toNat?)
         | _ => none
@@ -373,7 +385,7 @@ def tMon (m : MSt) (op : List String) (exts : List (List String)) (obs : Option 
           [fail "C26:pending-longer-than-1.25-BatchTimeout" s!"events {natList (late.map (·.id))} still not sent at {m.now}, BatchTimeout {m.bt}"] else []) ++
         (if g < 0 then [fail "C26:gauge-negative" s!"queued-items gauge is {g}"] else []) ++
         (if m.stopped && !waiting.isEmpty then
-          [fail ("C26:not-flushed-on-stop" ++ duringSfx m) s!"events {natList (waiting.map (·.id))} were never sent although the transmission stopped"] else []) ++
+          [fail (if m.terr then "C26:event-without-outcome:after-transport-error" else "C26:not-flushed-on-stop" ++ duringSfx m) s!"events {natList (waiting.map (·.id))} were never sent although the transmission stopped"] else []) ++
         (if m.stopped && g > 0 then [fail "C26:gauge-leak-after-stop" s!"queued-items gauge is {g} after every event had an outcome"] else []) ++
         (if m.stopped && cs.getD 3 0 < (m.evs.filter (!·.fit)).length then
           [fail "C26:oversize-not-counted-as-error" s!"{(m.evs.filter (!·.fit)).length} oversize events but only {cs.getD 3 0} response errors"] else [])
